@@ -492,4 +492,108 @@ example : limbsOf 4 2 0x01020304 = [0x0304, 0x0102] := by decide
 theorem C14_sis_mulX (q : ℕ) (b : List ℕ) (l : ℕ) : mulX q (b ++ [l]) = ((q - l % q) % q) :: b := by
   simp [mulX]
 
+/-! ### the all-zero-chunk shortcut and the output vector
+
+`RSis.InnerHash` returns early when the `d` limbs of a chunk are all zero ("FFT(0) = 0"). In the specification this is
+`C14_sis_zero_chunk`: the product of the zero polynomial with a key polynomial is zero, and adding it leaves the
+(reduced) accumulator unchanged – for EVERY accumulator, so the shortcut is only sound if the accumulator has been
+initialised before (the Go code zeroes `res` up front; the `sisd` op hands over an output vector holding garbage). -/
+
+theorem mulX_length (q : ℕ) (b : List ℕ) : (mulX q b).length = b.length := by
+  rcases List.eq_nil_or_concat b with rfl | ⟨l, x, rfl⟩
+  · simp [mulX]
+  · simp [mulX]
+
+theorem axpy_zero (q : ℕ) (s : List ℕ) :
+    axpy q 0 (List.replicate s.length 0) s = List.replicate s.length 0 := by
+  induction s with
+  | nil => simp [axpy]
+  | cons x xs ih => simpa [axpy, List.replicate_succ] using ih
+
+theorem negacyclic_zero_aux (q n : ℕ) : ∀ s : List ℕ,
+    ((List.replicate n 0).foldl (fun (st : List ℕ × List ℕ) ai => (axpy q ai st.1 st.2, mulX q st.2))
+      (List.replicate s.length 0, s)).1 = List.replicate s.length 0 := by
+  induction n with
+  | zero => intro s; simp
+  | succ n ih =>
+    intro s
+    rw [List.replicate_succ, List.foldl_cons]
+    simp only [axpy_zero]
+    have := ih (mulX q s)
+    rw [mulX_length] at this
+    exact this
+
+/-- the zero polynomial times any key polynomial is the zero polynomial (whatever the number `n` of zero limbs read) -/
+theorem C14_sis_zero_chunk (q n : ℕ) (key : List ℕ) :
+    negacyclic q (List.replicate n 0) key = List.replicate key.length 0 :=
+  negacyclic_zero_aux q n key
+
+theorem polyAdd_zero (q : ℕ) (acc : List ℕ) (hacc : ∀ x ∈ acc, x < q) :
+    polyAdd q acc (List.replicate acc.length 0) = acc := by
+  induction acc with
+  | nil => simp [polyAdd]
+  | cons x xs ih =>
+    have hx : x % q = x := Nat.mod_eq_of_lt (hacc x (by simp))
+    have := ih (fun y hy => hacc y (by simp [hy]))
+    simp_all [polyAdd, List.replicate_succ]
+
+/-- skipping an all-zero chunk is sound: it contributes nothing to a reduced accumulator of the right length -/
+theorem C14_sis_skip_zero_chunk (q n : ℕ) (acc key : List ℕ) (hlen : key.length = acc.length)
+    (hacc : ∀ x ∈ acc, x < q) :
+    polyAdd q acc (negacyclic q (List.replicate n 0) key) = acc := by
+  rw [C14_sis_zero_chunk, hlen, polyAdd_zero q acc hacc]
+
+/-- consequently the empty message and every all-zero message hash to the zero vector: the output does not keep
+anything of what the output vector held before the call -/
+theorem C14_sis_hash_zero_message (P : Params) (n : ℕ) (hn : n ≤ P.maxNb) (hA : ∀ a ∈ P.A, a.length = P.d)
+    (hq : 0 < P.q) :
+    hash P (List.replicate n 0) = some (List.replicate P.d 0) := by
+  have hm : (List.replicate n 0).flatMap (limbsOf P.eb P.lb) = List.replicate (n * (P.eb / P.lb)) 0 := by
+    induction n with
+    | zero => simp
+    | succ k ih =>
+      have ih' := ih (by omega)
+      rw [List.replicate_succ, List.flatMap_cons, ih']
+      have : limbsOf P.eb P.lb 0 = List.replicate (P.eb / P.lb) 0 := by
+        simp [limbsOf, List.eq_replicate_iff]
+      rw [this, ← List.replicate_add]; congr 1; ring
+  have hcs : ∀ (k m : ℕ), chunksOf P.d k (List.replicate m 0) = List.replicate k (List.replicate P.d 0) := by
+    intro k
+    induction k with
+    | zero => intro m; simp [chunksOf]
+    | succ k ih =>
+      intro m
+      simp only [chunksOf, List.take_replicate, List.drop_replicate, List.length_replicate, ih,
+        List.replicate_succ, ← List.replicate_add]
+      congr 2; omega
+  unfold hash
+  rw [if_neg (by simp; omega)]
+  simp only [hm, hcs]
+  congr 1
+  generalize P.A.length = k
+  have hzw : ∀ (A : List (List ℕ)) (k : ℕ), (∀ a ∈ A, a.length = P.d) →
+      List.zipWith (fun a c => negacyclic P.q c a) A (List.replicate k (List.replicate P.d 0)) =
+        List.replicate (min A.length k) (List.replicate P.d 0) := by
+    intro A
+    induction A with
+    | nil => intro k _; simp
+    | cons a A ih =>
+      intro k h
+      cases k with
+      | zero => simp
+      | succ k =>
+        rw [List.replicate_succ, List.zipWith_cons_cons, C14_sis_zero_chunk, h a (by simp),
+          ih k (fun b hb => h b (by simp [hb]))]
+        simp [List.replicate_succ, Nat.succ_min_succ]
+  rw [hzw P.A k hA]
+  generalize min P.A.length k = j
+  induction j with
+  | zero => simp
+  | succ j ih =>
+    rw [List.replicate_succ, List.foldl_cons]
+    have : polyAdd P.q (List.replicate P.d 0) (List.replicate P.d 0) = List.replicate P.d 0 := by
+      have := polyAdd_zero P.q (List.replicate P.d 0) (by intro x hx; simp at hx; omega)
+      simpa using this
+    rw [this, ih]
+
 end GV.SIS
